@@ -28,6 +28,7 @@ import (
 	"github.com/99designs/gqlgen/graphql/handler/transport"
 	"github.com/vektah/gqlparser/v2/ast"
 
+	"verif/internal/sjson"
 	"verif/internal/txharness"
 	"verif/work/farm/cur/tx"
 )
@@ -488,6 +489,11 @@ func (w *httpWorker) judgeBody(in *httpInput, o *httpObservation, fail func(stri
 		if err != nil && mt == "multipart/mixed" && i > 0 && v != nil && v.Get("incremental") != nil {
 			err = nil // incremental delivery envelope (C12/C13 judge those)
 		}
+		if err != nil && v != nil && v.Kind == sjson.Object && v.Get("data") != nil && v.Get("errors") == nil && isSubscriptionLog(o.Fields) {
+			// a valid subscription whose stream ended before its first event (count(n: 0) after a
+			// number mutation): there is no result to report, any response object will do
+			err = nil
+		}
 		if err != nil {
 			fail("answer-not-a-graphql-response:"+in.Transport, "%v: %s", err, clip(string(d)))
 			continue
@@ -614,4 +620,17 @@ func runHTTPChild(spec *batchSpec, col *collector) int {
 	col.count("recover_calls_process_total", txharness.TotalRecovers.Load())
 	os.Remove(cur)
 	return 0
+}
+
+// isSubscriptionLog: the only resolver that ran is a subscription root of the tx probe.
+func isSubscriptionLog(fields []string) bool {
+	if len(fields) == 0 {
+		return false
+	}
+	for _, f := range fields {
+		if f != "count" && f != "s1" && f != "ctl" {
+			return false
+		}
+	}
+	return true
 }
